@@ -44,6 +44,92 @@ def flagstr(target, flags):
     return "+".join(names) if names else "none"
 
 
+SSSE3_38 = set(range(0x00, 0x0c)) | {0x1c, 0x1d, 0x1e}	# pshufb phadd* pmaddubsw phsub* psign* pmulhrsw pabs*
+LEGACY_PREFIX = {0x66, 0xf2, 0xf3, 0x2e, 0x36, 0x3e, 0x26, 0x64, 0x65, 0x67}
+
+
+def encoding_leg(xasm, env, scratch, tier):
+    import glob
+    import subprocess
+    d = os.path.join(scratch, "enc")
+    os.makedirs(d)
+    nsh = 16
+    res = vlib.Results()
+    levels = "L1,L4,L5,L6" if tier == "quick" else "L1,L2,L3,L4,L5,L6"
+    args = [["--mode", "dump", "--levels", levels, "--vectors", "minimal", "--targets", "sse,mmx", "--classes", "both",
+             "--corpus", corpus_arg(), "--shard", i, "--nshards", nsh, "--outdir", d] for i in range(nsh)]
+    vlib.run_shards(xasm, args, env, timeout=3600, res=res, label="xasm-enc")
+    out = {"viol": [], "instructions": 0, "functions": 0, "flag_vectors": set()}
+    seen = set()
+
+    def one(f):
+        base = f[:-4]
+        t, fl, _ = os.path.basename(base).split("_")
+        fl = int(fl, 16)
+        if not os.path.getsize(f):
+            return t, fl, [], 0, 0
+        desc = {}
+        for l in open(f):
+            k, _, v = l.rstrip("\n").partition("\t")
+            desc[k] = v
+        ok, errs = vasm.assemble(base + ".bin.s", base + ".bin.o", 64)
+        if not ok:
+            return t, fl, [("harness", "byte file did not assemble", "")], 0, 0
+        p = subprocess.run(["objdump", "-d", "-w", base + ".bin.o"], stdout=subprocess.PIPE)
+        has_ssse3 = bool(fl & ((1 << 2) if t == "sse" else (1 << 4)))	# ORC_TARGET_SSE_SSSE3 / ORC_TARGET_MMX_SSSE3
+        bad = []
+        cur = None
+        n = 0
+        nf = 0
+        for line in p.stdout.decode(errors="replace").split("\n"):
+            m = vasm.HDR.match(line)
+            if m:
+                cur = m.group(1)
+                nf += 1
+                continue
+            parts = line.split("\t")
+            if len(parts) < 3:
+                continue
+            try:
+                bs = [int(x, 16) for x in parts[1].split()]
+            except ValueError:
+                continue
+            n += 1
+            i = 0
+            while i < len(bs) and (bs[i] in LEGACY_PREFIX or 0x40 <= bs[i] <= 0x4f):
+                i += 1
+            if i + 2 < len(bs) and bs[i] == 0x0f and bs[i + 1] in (0x38, 0x3a):
+                op = bs[i + 2]
+                allowed = has_ssse3 and ((bs[i + 1] == 0x38 and op in SSSE3_38) or (bs[i + 1] == 0x3a and op == 0x0f))
+                if not allowed:
+                    bad.append((" ".join(parts[2].split()), "0f %02x %02x" % (bs[i + 1], op), desc.get(cur, cur)))
+        for x in (base + ".bin.o",):
+            if os.path.exists(x):
+                os.unlink(x)
+        return t, fl, bad, n, nf
+
+    files = sorted(glob.glob(os.path.join(d, "*.idx")))
+    with cf.ThreadPoolExecutor(vlib.NCPU) as ex:
+        for t, fl, bad, n, nf in ex.map(one, files):
+            out["instructions"] += n
+            out["functions"] += nf
+            out["flag_vectors"].add((t, fl))
+            for text, enc, prog in bad:
+                mn = text.split()[0] if text else "?"
+                key = "C11|%s|%s|encoding=%s" % (t, mn, enc)
+                if key in seen:
+                    continue
+                seen.add(key)
+                out["viol"].append({"t": "viol", "key": key,
+                                    "what": "target %s compiled with flags 0x%x (%s) emits `%s` in the encoding %s: the three-byte opcode maps hold only SSSE3 and "
+                                            "later instructions (the mnemonic also has an older encoding, which is why the listing looks fine); program: %s"
+                                            % (t, fl, flagstr(t, fl), text, enc, prog),
+                                    "replay": {"target": t, "flags": fl, "form": text, "program": prog, "encoding": enc}})
+    out["flag_vectors"] = len(out["flag_vectors"])
+    shutil.rmtree(d, ignore_errors=True)
+    return out
+
+
 def run(ctx):
     tier = ctx["tier"]
     xasm = vlib.build_engine("xasm", "plain")
@@ -100,6 +186,12 @@ def run(ctx):
                               "what": "target %s compiled with flags 0x%x (%s, %d-bit) emits `%s`, an instruction of ISA level %s whose flag is not in the set; program: %s"
                                       % (t, fl, flagstr(t, fl), bits, f, vasm.LEVELS[lvl], prog),
                               "replay": {"target": t, "flags": fl, "form": f, "level": vasm.LEVELS[lvl], "program": prog}})
+    # oracle 1b: the encoding, not the mnemonic.  Some mnemonics have an old and a new encoding (pextrw: 66 0F C5 is SSE2,
+    # 66 0F 3A 15 is SSE4.1), and GNU as / objdump show both alike.  Every legacy-encoded instruction in the three-byte
+    # opcode maps 0F 38 / 0F 3A is SSSE3 or later, so under flag vectors without those levels the emitted *bytes* must
+    # not use these maps (SSSE3 vectors: only the SSSE3 opcodes of the maps).
+    enc = encoding_leg(xasm, env, scratch, tier)
+    viols.extend(enc["viol"])
     # keep one violation per (target, mnemonic, level): the smallest flag set
     best = {}
     for v in viols:
@@ -152,6 +244,9 @@ def run(ctx):
         "samples": [{"flag_vector": "%s 0x%x" % k, "forms": len(v), "example": sorted(v)[len(v) // 2]} for k, v in sorted(forms.items())[5::97]][:8]
                    + res2.samples[:3],
         "flag_vectors_with_code": len(forms),
+        "encoding_leg": {"instructions_decoded": enc["instructions"], "functions": enc["functions"], "flag_vectors": enc["flag_vectors"],
+                         "rule": "sse under {SSE2, +SSE3, +SSSE3} and mmx under {MMX+MMXEXT, +SSSE3}, 64-bit: the emitted bytes of every program of the "
+                                 "levels are disassembled and no instruction may use the 0F 38 / 0F 3A opcode maps (with SSSE3: only the SSSE3 opcodes)"},
         "flag_vectors_enumerated": int(st.get("flag_vectors", 0)),
         "compiles": int(st.get("compiles", 0)),
         "compiled_ok": int(st.get("compiled_ok", 0)),
